@@ -3,11 +3,18 @@
 From Coq Require Import List Bool Arith NArith ZArith String.
 From Coq.Strings Require Import Byte.
 From Verif.Base Require Import Bytes Outcome Str.
-From Verif.Model Require Import IE Codec Record SetB Msg Exporter.
-From Verif.Proofs Require Import SetB_lemmas Exporter_lemmas C08_lemmas C08_oracle.
-From Verif.Driver Require Import Show SetShow HistShow C08drv.
+From Verif.Model Require Import IE Codec Record SetB Msg Exporter ExpObj.
+From Verif.Proofs Require Import SetB_lemmas Exporter_lemmas C08_lemmas C08_oracle ExpObj_lemmas C08gen_lemmas.
+From Verif.Driver Require Import Show SetShow HistShow HistObj C08drv.
 Import ListNotations.
 Local Open Scope N_scope.
+
+Fixpoint list_eqb_s (a b : list string) : bool :=
+  match a, b with
+  | [], [] => true
+  | x :: a', y :: b' => String.eqb x y && list_eqb_s a' b'
+  | _, _ => false
+  end.
 
 (* For every history of SendSet calls (each building any set with any builder operations, at
    any time t) on a process whose counter is a uint32, if every call succeeds then the k-th
@@ -40,8 +47,36 @@ Print Assumptions C08_templates_do_not_count.
    transport, start counter, sets built by any operations. No hypothesis is needed: the oracle
    itself stops at the first failed attempt, as the statement does. The oracle is a function of
    the structured observation (list sobs * fobs); show_hist / parse_hobs only print / read it. *)
-Theorem C08_oracle_on_model : forall c, C08_holds_on c (hist_model cur c) = true.
+Theorem C08_oracle_on_model_h : forall c, C08_holds_on_h c (hist_model cur c) = true.
 Proof. exact c08_oracle_on_model. Qed.
+Print Assumptions C08_oracle_on_model_h.
+
+(* ---- histories with reconnects (and everything else an application does with its objects) ----
+   Object-level histories (Model/ExpObj.v): SendSet calls on new or reused set objects, shared
+   and changed element objects, refreshes, and RECONNECTS: the exporting process is closed and
+   a new one is created for the same collector address and observation domain; the new
+   process starts with an empty template map and its own counter (0, or the value the verif
+   hook sets). The statement is per exporting process: [seq_track acc outs] says that at every
+   call, refresh and reconnect the counter of the CURRENT process is the predicted number
+   [acc] = its start value + the data records of the data messages it has transmitted so far
+   (mod 2^32), and that every successful call wrote exactly one message whose header carries
+   version 10, its own length, the export time, the predicted number after it and the
+   configured domain, and returned its size (good_send_g). Refreshed templates and calls refused
+   by the checks that precede the counter update leave the number alone; a reconnect restarts
+   the prediction at the new process's start value; after a failure that follows the counter
+   update (size limit, write error) or a panic the process is outside the statement, as failed
+   attempts are, until the next reconnect. *)
+Theorem C08_sequence_per_process : forall h w acc,
+  WInv w -> acc_inv acc (w_exp w) -> seq_track acc (grun cur w h).
+Proof. exact seq_track_lemma. Qed.
+Print Assumptions C08_sequence_per_process.
+
+(* The oracle of the check on these histories (C08_holds_on, Driver/C08drv.v: the same
+   accounting on the observation - per process, restarted at every reconnect, continued after
+   refused calls, refresh messages carrying the current number) holds on the model's own
+   observation of EVERY case; no hypothesis. *)
+Theorem C08_oracle_on_model : forall c, C08_holds_on c (gmodel cur c) = true.
+Proof. exact c08_oracle_on_model_g. Qed.
 Print Assumptions C08_oracle_on_model.
 
 (* non-vacuity: a session that crosses the 2^32 wrap, all calls succeed, numbers as predicted *)
@@ -57,3 +92,18 @@ Example C08_nonvacuous :
   map (fun x => match r_wire x with Some b => bed (firstn 4 (skipn 8 b)) | None => 99 end) (run_hist cur ex_st ex_hist)
     = [4294967293; 4294967294; 0; 0; 5].
 Proof. vm_compute. repeat split. Qed.
+
+(* non-vacuity with a reconnect: the second process counts from 0 although the first one stopped
+   at 5 (+ 2^32 - 3); data for the first process's template is refused until it is sent again *)
+Definition c08_gcase : string :=
+  "tcp 7 4294967293 dig S P T 256 A 1 256 1 4 1 0 1 u8 0 ; S P D 256 N 5 A 2 256 1 4 1 0 1 u8 1 ; X - C 1 ; C 0 ; C 1 ; X 100 C 0 ; C 1 ;".
+Example C08_reconnect_nonvacuous :
+  match parse_gcase (tokens c08_gcase) with
+  | Some c => let m := gmodel cur c in
+              C08_holds_on c m &&
+              list_eqb_s (map (fun o => match o with GOSend s => show_sres (so_res s) | GORefresh _ _ => "f"%string | GOReconn _ => "x"%string end) (fst m))
+                ["r=ok:28"; "r=ok:25"; "x"; "r=err:notemplate"; "r=ok:28"; "r=ok:25"; "x"; "r=ok:28"; "r=ok:25"]%string &&
+              N.eqb (fo_seq (snd m)) 105
+  | None => false
+  end = true.
+Proof. vm_compute. reflexivity. Qed.
